@@ -31,6 +31,12 @@ func c02(r *mon.R) {
 		}
 	}
 	if *flagGroups == "" {
+		// residue groups configured through SetParams: cofactor 6, and one group object configured twice (its scalars must
+		// follow the parameters in force, not the first ones)
+		for _, g := range []*groups.G{groups.ResidueR6(), groups.ResidueReconfigured()} {
+			g := g
+			impls = append(impls, c02core.Impl{Name: g.Name, New: func() kyber.Scalar { return g.Grp.Scalar() }, Q: g.Q, Len: g.Grp.ScalarLen()})
+		}
 		// the full edwards25519vartime group (order 8Q, composite modulus) and mod.Int with both byte orders on odd moduli of several word sizes
 		fg := edwards25519vartime.NewBlakeSHA256Ed25519(true)
 		_ = fg
